@@ -7,6 +7,7 @@ the exception class."""
 import io
 
 from . import core
+from . import c16_comb
 
 LEVEL = 'model_checking'
 
@@ -223,3 +224,5 @@ def check(run):
     run.validated = run.evaluations
     run.extra['cases_by_kind'] = kinds
     run.extra['exhaustive'] = False
+    # second part: the composition of decoders (spec/Combinators.tla)
+    c16_comb.check(run)
